@@ -1,6 +1,6 @@
-\* thorough instance 1: flat domain; region A free over offsets -2..5, sizes 1/2/4; B frozen
+\* thorough instance 1: flat domain; region A free over offsets -1..5, sizes 1/2/4; B frozen
 CONSTANTS
-  NegOff = 2
+  NegOff = 1
   OffHi = 5
   Sizes = {1, 2, 4}
   Doms = {"flat"}
